@@ -277,6 +277,11 @@ func (t *RecTransport) SetMaxReadChunk(n int) {
 func (t *RecTransport) Read(p []byte) (int, error) {
 	t.mu.Lock()
 	defer t.mu.Unlock()
+	if !t.closed {
+		if ferr := t.faultFor(OpRead); ferr != nil {
+			return 0, ferr
+		}
+	}
 	for {
 		if t.closed {
 			return 0, net.ErrClosed
